@@ -71,6 +71,11 @@ def S.emit (s : S) (o : Obs) : S := { s with trace := o :: s.trace }
 /-- find_watcher -/
 def find (s : S) (wd : Nat) : Option WL := s.lists wd
 
+/-- compare_watchers, linux.c:2465-2470: the order of the RB tree `watcher_root` the map `lists`
+    stands for (keys = watch descriptors, `int`); tied to the C text and shown to be a strict total
+    order in UvModel/GenEq/C17.lean -/
+def cmpWd (a b : Int) : Int := if a < b then -1 else if a > b then 1 else 0
+
 /-- write back a list record (RB_INSERT for a new one, in-place update otherwise) -/
 def setList (s : S) (w : WL) : S := { s with lists := upd s.lists w.wd (some w) }
 
